@@ -113,7 +113,7 @@ class Result:
         self.known_hits = {}      # key -> count
         self.samples = []
         self.known, self.fixed = load_known_findings(prop)
-        self.max_violations = 5
+        self.max_violations = int(os.environ.get('VERIF_MAX_VIOL', '5'))
         self._seen_keys = {}
 
     def add(self, name, n=1):
